@@ -43,7 +43,7 @@ static char *copy_info_str(char *src)
 	char *dst = xstrdup(src);
 	size_t len = strlen(dst);
 
-	if (dst[len - 1] == '\n')
+	if (len > 0 && dst[len - 1] == '\n')
 		dst[len - 1] = '\0';
 
 	return dst;
